@@ -61,12 +61,12 @@ func init() {
 		"fmt.Sprintf": modelFreshString,
 		"fmt.Sprint":  modelFreshString,
 		"strings.Join": modelFreshString,
-		"(*sync.RWMutex).RLock":   modelLock(0, 1, "RLock"),
-		"(*sync.RWMutex).RUnlock": modelLock(1, 0, "RUnlock"),
-		"(*sync.RWMutex).Lock":    modelLock(0, 2, "Lock"),
-		"(*sync.RWMutex).Unlock":  modelLock(2, 0, "Unlock"),
-		"(*sync.Mutex).Lock":      modelLock(0, 2, "Lock"),
-		"(*sync.Mutex).Unlock":    modelLock(2, 0, "Unlock"),
+		"sync.(*RWMutex).RLock":   modelLock(0, 1, "RLock"),
+		"sync.(*RWMutex).RUnlock": modelLock(1, 0, "RUnlock"),
+		"sync.(*RWMutex).Lock":    modelLock(0, 2, "Lock"),
+		"sync.(*RWMutex).Unlock":  modelLock(2, 0, "Unlock"),
+		"sync.(*Mutex).Lock":      modelLock(0, 2, "Lock"),
+		"sync.(*Mutex).Unlock":    modelLock(2, 0, "Unlock"),
 		"encoding/json.Unmarshal": func(fv *FV, st *State, ins ssa.CallInstruction, v ssa.Value, callee *ssa.Function, args []string) bool {
 			cc := ins.Common()
 			fv.havocPointee(st, cc.Args[1], args[1])
@@ -128,16 +128,22 @@ func modelSplit(fv *FV, st *State, ins ssa.CallInstruction, v ssa.Value, callee 
 // ghost lock state: 0 none, 1 read-held, 2 write-held
 func modelLock(from, to int, name string) libModel {
 	return func(fv *FV, st *State, ins ssa.CallInstruction, v ssa.Value, callee *ssa.Function, args []string) bool {
-		key := args[0]
-		cur, ok := st.lock[key]
-		if !ok {
-			cur = "0"
-		}
+		f := fv.lockFam()
+		cur := fv.read(st, f, args[0])
 		fv.oblige(st, "lock", fv.srcLabel(ins.Pos(), name), eq(cur, intLit(int64(from))), ins.Pos(), nil)
-		st.lock[key] = intLit(int64(to))
-		fv.used("sync mutex modelled as ghost state machine (none/R/W) of one sequential thread")
+		fv.write(st, f, []string{args[0]}, intLit(int64(to)))
+		fv.lockKeys = append(fv.lockKeys, args[0])
+		fv.used("sync mutex modelled as ghost state machine (none/R/W) of one sequential thread; all mutexes free at function entry")
 		return true
 	}
+}
+
+func (fv *FV) lockFam() *Family {
+	if f, ok := fv.fams["GL|lock"]; ok {
+		return f
+	}
+	f := fv.family("GL|lock", []string{"Int"}, "Int")
+	return f
 }
 
 // ---------------------------------------------------------------------------
@@ -154,8 +160,8 @@ func (fv *FV) callFold(st *State, ins ssa.CallInstruction, v ssa.Value, callee *
 	sig := callee.Signature
 	ord := fv.foldCount
 	fv.foldCount++
-	mapMC, ok1 := cc.Args[2].(*ssa.MakeClosure)
-	redMC, ok2 := cc.Args[3].(*ssa.MakeClosure)
+	mapFn, mapBindV, ok1 := closureOf(cc.Args[2])
+	redFn, redBindV, ok2 := closureOf(cc.Args[3])
 	var spec *FoldSpec
 	if fv.contract != nil {
 		spec = fv.contract.Folds[ord]
@@ -164,8 +170,8 @@ func (fv *FV) callFold(st *State, ins ssa.CallInstruction, v ssa.Value, callee *
 	generic := func(why string) {
 		keys := map[string]bool{}
 		for _, a := range []ssa.Value{cc.Args[2], cc.Args[3]} {
-			if mc, ok := a.(*ssa.MakeClosure); ok {
-				for k := range fv.eng.modFamilies(mc.Fn.(*ssa.Function)) {
+			if fn, _, ok := closureOf(a); ok {
+				for k := range fv.eng.modFamilies(fn) {
 					keys[k] = true
 				}
 			} else {
@@ -183,7 +189,6 @@ func (fv *FV) callFold(st *State, ins ssa.CallInstruction, v ssa.Value, callee *
 		generic("with non-literal closures")
 		return
 	}
-	mapFn, redFn := mapMC.Fn.(*ssa.Function), redMC.Fn.(*ssa.Function)
 	mapC, redC := fv.eng.contractFor(mapFn), fv.eng.contractFor(redFn)
 	if spec == nil || mapC == nil || redC == nil {
 		generic("without fold invariant")
@@ -195,15 +200,16 @@ func (fv *FV) callFold(st *State, ins ssa.CallInstruction, v ssa.Value, callee *
 	pt := cc.Args[0].Type().Underlying().(*types.Slice)
 	itemFam := fv.elemFam(pt.Elem())
 	accT := cc.Args[1].Type()
-	bind := func(mc *ssa.MakeClosure) map[string]SVal {
+	bind := func(fn *ssa.Function, bs []ssa.Value) map[string]SVal {
 		m := map[string]SVal{}
-		fn := mc.Fn.(*ssa.Function)
 		for i, f := range fn.FreeVars {
-			m[f.Name()] = SVal{fv.val(st, mc.Bindings[i]), f.Type()}
+			if i < len(bs) {
+				m[f.Name()] = SVal{fv.val(st, bs[i]), f.Type()}
+			}
 		}
 		return m
 	}
-	mapBind, redBind := bind(mapMC), bind(redMC)
+	mapBind, redBind := bind(mapFn, mapBindV), bind(redFn, redBindV)
 
 	mkCtx := func(s *State, acc string, done func(string) string) *SpecCtx {
 		ctx := fv.newSpecCtx(fv.pkgTypes(), s, fv.entry)
@@ -320,9 +326,42 @@ func (fv *FV) callFold(st *State, ins ssa.CallInstruction, v ssa.Value, callee *
 	}
 	q := fv.fresh("q!k")
 	fv.assume(st, implies(eq(sx("s-base", rs[1]), "0"), fmt.Sprintf("(forall ((%s Int)) %s)", q, implies(and(sx("<=", "0", q), sx("<", q, n)), sx(Df, q)))))
+	// errs != nil only if some mapF call failed: a witness call (side state guarded by errs != nil)
+	{
+		fv.regionCount++
+		saveRegion := fv.region
+		s2 := st.clone()
+		s2.reach = and(st.reach, not(eq(sx("s-base", rs[1]), "0")))
+		xw := fv.freshConst("failitem", "Int")
+		fv.assume(s2, and(sx("<=", "0", xw), sx("<", xw, n)))
+		wvars := map[string]SVal{}
+		if len(mapFn.Params) == 1 {
+			wvars[mapFn.Params[0].Name()] = SVal{fv.read(s2, itemFam, sx("s-base", payload), sx("+", sx("s-off", payload), xw)), mapFn.Params[0].Type()}
+		}
+		fv.suppressObl = true
+		wres := fv.applyContractRet(s2, mapC, mapFn.Pkg.Pkg, mapFn.Signature, fmt.Sprintf("fold%d.map", ord), wvars, mapBind, pos)
+		fv.suppressObl = false
+		if len(wres) == 2 {
+			fv.assume(s2, not(eq(wres[1], "any-nil")))
+		}
+		fv.region = saveRegion
+	}
 	// errs is either nil or non-empty
 	fv.assume(st, or(eq(sx("s-base", rs[1]), "0"), sx(">", sx("s-len", rs[1]), "0")))
 	fv.setResults(st, v, rs)
+}
+
+// closureOf resolves a function-typed argument to the function literal it denotes.
+func closureOf(v ssa.Value) (*ssa.Function, []ssa.Value, bool) {
+	switch x := v.(type) {
+	case *ssa.MakeClosure:
+		return x.Fn.(*ssa.Function), x.Bindings, true
+	case *ssa.Function:
+		return x, nil, true
+	case *ssa.ChangeType:
+		return closureOf(x.X)
+	}
+	return nil, nil, false
 }
 
 // applyContractRet is applyContractCore returning the result terms.
